@@ -5,6 +5,7 @@ package classifier
 import (
 	"bytes"
 	"fmt"
+	"reflect"
 	"runtime/debug"
 	"sort"
 	"strings"
@@ -57,61 +58,94 @@ func protect(b []byte, what string) {
 	frozenRegions = append(frozenRegions, frozenRegion{lo, lo + uintptr(len(b)), what})
 }
 
-func freezeRunes(s []rune, what string) []rune {
-	if cap(s) == 0 {
-		return s
+func pointerFree(t reflect.Type) bool {
+	switch t.Kind() {
+	case reflect.Bool, reflect.Int, reflect.Int8, reflect.Int16, reflect.Int32, reflect.Int64,
+		reflect.Uint, reflect.Uint8, reflect.Uint16, reflect.Uint32, reflect.Uint64, reflect.Uintptr, reflect.Float32, reflect.Float64:
+		return true
+	case reflect.Array:
+		return pointerFree(t.Elem())
+	case reflect.Struct:
+		for i := 0; i < t.NumField(); i++ {
+			if !pointerFree(t.Field(i).Type) {
+				return false
+			}
+		}
+		return true
 	}
-	full := s[:cap(s)]
-	b := freezeBytes(len(full) * 4)
-	out := unsafe.Slice((*rune)(unsafe.Pointer(&b[0])), len(full))
-	copy(out, full)
-	protect(b, what)
-	return out[:len(s):len(full)]
+	return false
 }
 
-func freezeTokens(s []indexedToken, what string) []indexedToken {
-	if cap(s) == 0 {
-		return s
+// freezeWalk moves EVERY pointer-free slice reachable from v through struct fields and pointers
+// (not through maps or interfaces) into read-only pages, keeping len and cap. It is generic on
+// purpose: an array that a change adds to a corpus document is frozen too. Slices that share a
+// backing array are frozen once (aliases are re-pointed to the same frozen copy).
+func freezeWalk(v reflect.Value, what string, seen map[uintptr]bool, moved map[uintptr]unsafe.Pointer) int {
+	if !v.IsValid() {
+		return 0
 	}
-	full := s[:cap(s)]
-	sz := int(unsafe.Sizeof(indexedToken{}))
-	b := freezeBytes(len(full) * sz)
-	out := unsafe.Slice((*indexedToken)(unsafe.Pointer(&b[0])), len(full))
-	copy(out, full)
-	protect(b, what)
-	return out[:len(s):len(full)]
-}
-
-func freezeU32(s []uint32, what string) []uint32 {
-	if cap(s) == 0 {
-		return s
+	if v.CanAddr() && !v.CanSet() {
+		v = reflect.NewAt(v.Type(), unsafe.Pointer(v.UnsafeAddr())).Elem()
 	}
-	full := s[:cap(s)]
-	b := freezeBytes(len(full) * 4)
-	out := unsafe.Slice((*uint32)(unsafe.Pointer(&b[0])), len(full))
-	copy(out, full)
-	protect(b, what)
-	return out[:len(s):len(full)]
+	n := 0
+	switch v.Kind() {
+	case reflect.Ptr:
+		if v.IsNil() || seen[v.Pointer()] {
+			return 0
+		}
+		seen[v.Pointer()] = true
+		if v.Elem().Kind() == reflect.Struct && v.Elem().Type().PkgPath() == reflect.TypeOf(indexedDocument{}).PkgPath() {
+			if v.Elem().Type().Name() == "dictionary" {
+				return 0 // the shared dictionary is maps only; watched by the state hash
+			}
+			n += freezeWalk(v.Elem(), what, seen, moved)
+		}
+	case reflect.Struct:
+		for i := 0; i < v.NumField(); i++ {
+			n += freezeWalk(v.Field(i), what+"."+v.Type().Field(i).Name, seen, moved)
+		}
+	case reflect.Slice:
+		if v.IsNil() || v.Cap() == 0 {
+			return 0
+		}
+		et := v.Type().Elem()
+		if pointerFree(et) {
+			base := v.Pointer()
+			sz := int(et.Size())
+			if sz == 0 {
+				return 0
+			}
+			dst, ok := moved[base]
+			if !ok {
+				bytes := freezeBytes(v.Cap() * sz)
+				src := unsafe.Slice((*byte)(unsafe.Pointer(base)), v.Cap()*sz)
+				copy(bytes, src)
+				protect(bytes, what)
+				dst = unsafe.Pointer(&bytes[0])
+				moved[base] = dst
+				n++
+			}
+			hdr := (*[3]uintptr)(unsafe.Pointer(v.UnsafeAddr()))
+			hdr[0] = uintptr(dst)
+			return n
+		}
+		if et.Kind() == reflect.Ptr || et.Kind() == reflect.Struct {
+			for i := 0; i < v.Len(); i++ {
+				n += freezeWalk(v.Index(i), fmt.Sprintf("%s[%d]", what, i), seen, moved)
+			}
+		}
+	}
+	return n
 }
 
 // vFreeze moves every pointer-free array of the corpus into read-only memory:
 // any store into it - even of an identical value - faults.
 func vFreeze(c *Classifier) int {
 	n := 0
+	seen := map[uintptr]bool{}
+	moved := map[uintptr]unsafe.Pointer{}
 	for _, k := range vDocKeys(c) {
-		d := c.docs[k]
-		d.runes = freezeRunes(d.runes, k+" runes")
-		shared := d.s != nil && len(d.s.Tokens) > 0 && len(d.Tokens) > 0 && &d.s.Tokens[0] == &d.Tokens[0]
-		d.Tokens = freezeTokens(d.Tokens, k+" Tokens")
-		if d.s != nil {
-			if shared {
-				d.s.Tokens = d.Tokens
-			} else {
-				d.s.Tokens = freezeTokens(d.s.Tokens, k+" searchSet.Tokens")
-			}
-			d.s.Checksums = freezeU32(d.s.Checksums, k+" searchSet.Checksums")
-		}
-		n++
+		n += freezeWalk(reflect.ValueOf(c.docs[k]), k, seen, moved)
 	}
 	return n
 }
@@ -288,10 +322,12 @@ func c09Sched(c *vrep.Ctx) {
 		[]byte("aa bb cc dd zqx ff gg ii jj\ncopyright 2000 x"),    // edited B + notice
 		[]byte("zqa zqb zqc"),                                      // OOV only
 		[]byte("kk ll mm nn oo aa bb cc dd ee ff gg hh"),           // two documents
+		[]byte("aa bb cc dd ee ff gg hh"),                          // bare copy of A: no longer than the documents
+		[]byte("aa bb cc dd ee ff gg ii"),                          // bare near-copy of B
 	}
 	scen := c.ParamInt("scenario", 0)
 	// scenario: which inputs the threads use (forced collisions first)
-	scens := [][]int{{0, 0}, {0, 1}, {1, 3}, {3, 2}, {0, 1, 3}, {1, 1, 0}}
+	scens := [][]int{{0, 0}, {0, 1}, {1, 3}, {3, 2}, {0, 1, 3}, {1, 1, 0}, {4, 4}, {4, 5}}
 	pick := scens[scen%len(scens)]
 	if nthreads < len(pick) {
 		pick = pick[:nthreads]
